@@ -592,11 +592,12 @@ class _parser:
         return dateobj
 
     def _correct_for_day(self, dateobj):
-        if (
-            getattr(self, "_token_day", None)
-            or getattr(self, "_token_weekday", None)
-            or getattr(self, "_token_time", None)
+        if getattr(self, "_token_day", None) or getattr(self, "_token_weekday", None):
+            return dateobj
+        if getattr(self, "_token_time", None) and not (
+            self._token_month or self._token_year
         ):
+            # a clock time alone: the day is decided by _correct_for_time_frame
             return dateobj
 
         dateobj = set_correct_day_from_settings(
